@@ -388,7 +388,14 @@ FIXED = {
                  ([("getdep",)], [[("disp_dep", 0)], [("disp_dep", 0)], [("dispose",)]]),
                  ([("getdep",), ("getdep",)], [[("disp_dep", 0)], [("disp_dep", 1)], [("dispose",)]]),
                  ([("getdep",)], [[("dispose",)], [("disp_dep", 0), ("getdep",)], [("getdep",), ("disp_dep", 1)]]),
-                 ([], [[("getdep",), ("disp_dep", 0)], [("dispose",), ("is_disposed",)]])],
+                 ([], [[("getdep",), ("disp_dep", 0)], [("dispose",), ("is_disposed",)]]),
+                 # the SAME dependent disposed by several threads at once: it must count once
+                 ([("getdep",), ("getdep",)], [[("disp_dep", 0)], [("disp_dep", 0)], [("dispose",)]]),
+                 ([("getdep",), ("getdep",), ("dispose",)], [[("disp_dep", 0)], [("disp_dep", 0)], [("disp_dep", 1)]]),
+                 ([("getdep",)], [[("disp_dep", 0)], [("disp_dep", 0)], [("disp_dep", 0), ("dispose",)]]),
+                 ([("getdep",)], [[("disp_dep", 0), ("disp_dep", 0)], [("disp_dep", 0), ("dispose",)]]),
+                 ([("getdep",), ("getdep",)], [[("disp_dep", 0), ("disp_dep", 1)], [("disp_dep", 1), ("disp_dep", 0)],
+                                               [("dispose",)]])],
 }
 
 
@@ -401,6 +408,16 @@ def gen_scenarios(kind, tier, rng):
         setup = [rng.choice(mut) for _ in range(rng.randrange(0, 3))]
         progs = [[rng.choice(mut) for _ in range(rng.choice([1, 1, 2]))] for _ in range(nth)]
         scs.append((setup, progs))
+    if kind == "refcount":
+        # threads racing on the SAME dependents: g dependents exist (primary already disposed or not), every
+        # thread disposes 1-2 of them (so that with 2-3 threads and g <= 2 some dependent is disposed by two
+        # threads, or twice by one) or disposes the primary
+        for _ in range(n):
+            g = rng.choice([1, 1, 2])
+            setup = [("getdep",)] * g + ([("dispose",)] if rng.random() < 0.4 else [])
+            calls = [("disp_dep", k) for k in range(g)] * 2 + [("dispose",)]
+            progs = [[rng.choice(calls) for _ in range(rng.choice([1, 1, 2]))] for _ in range(rng.choice([2, 3, 3]))]
+            scs.append((setup, progs))
     return scs
 
 
@@ -479,8 +496,31 @@ def oracle_conc(kind, setup, progs, log, world, flags):
             bad.append(("released-too-early", "no dispose() on the primary"))
         if bool(world.obj.is_disposed) != (u == 1):
             bad.append(("is_disposed-wrong", f"{world.obj.is_disposed} with {u} dispose() calls"))
+        # all calls have returned: released exactly once iff dispose() was called on the primary and on every
+        # dependent handed out (the inert handles given out after the release are not dependents)
+        by = refcount_disposers(world)
+        deps = [k for k, h in enumerate(world.handles) if world.is_dependent(h)]
+        pending = [k for k in deps if k not in by]
+        if u and pending:
+            bad.append(("released-too-early", f"underlying disposed although dependent(s) {pending} (of {len(world.handles)} "
+                                              f"handed out) were never disposed; dependents disposed by threads {by}"))
+        twice = {k: n for k, n in enumerate(D.release_profile(world)) if n > 1}
+        if twice:
+            bad.append(("dependent-released-twice", f"parent.release() calls per dependent {twice} (a dependent disposed "
+                                                    f"twice must release once); dependent -> disposing threads {by}"))
+        if primary and not pending and u != 1:
+            bad.append(("not-released", f"dispose() was called on the primary and on every dependent handed out "
+                                        f"(dependent -> disposing threads {by}) but the underlying got {u} dispose() calls"))
         return bad
     raise ValueError(kind)
+
+
+def refcount_disposers(world):
+    """{k: [ids of the threads that called dispose() on the k-th handle handed out]}"""
+    by = {}
+    for (tid, k) in world.env.dep_begun:
+        by.setdefault(k, []).append(tid)
+    return by
 
 
 def install_probes(kind, world, progs_all):
@@ -503,8 +543,22 @@ def install_probes(kind, world, progs_all):
             begun = [op for (_, op) in env.begun]
             if ("dispose",) not in begun:
                 return ("released-too-early", "underlying disposed before dispose() was called on the primary")
+            by = refcount_disposers(world)
+            pending = [k for k, h in enumerate(world.handles) if world.is_dependent(h) and k not in by]
+            if pending:
+                return ("released-too-early", f"underlying disposed while dependent(s) {pending} handed out before were "
+                                              f"not yet disposed; dependents disposed by threads so far {by}")
             return None
         world.items[0].probe = probe
+
+
+def conc_extra(kind, world):
+    """what else a replay file says about a concurrent run"""
+    if kind != "refcount":
+        return {}
+    return {"dependents_handed_out": len(world.handles),
+            "dependent_disposed_by_threads": {str(k): v for k, v in sorted(refcount_disposers(world).items())},
+            "release_calls_per_dependent": D.release_profile(world)}
 
 
 def nontrivial_conc(trace):
@@ -523,6 +577,7 @@ def run_k3(chk, kinds, tier, stats, bound=None):
     if badshape:
         chk.tie_broken("atomicity structure of the source differs from the modelled one (AST pass)", badshape)
     per_kind = {k: [] for k in kinds}
+    rel_cases = []
     t0 = time.time()
     with D.Rebound():
         for kind in kinds:
@@ -562,16 +617,23 @@ def run_k3(chk, kinds, tier, stats, bound=None):
                         stats["k3_runs"][mode] = stats["k3_runs"].get(mode, 0) + 1
                         stats["k3_steps"] += len(sched)
                         log = list(c.log)
+                        if kind == "refcount" and any(len(set(v)) >= 2 for v in refcount_disposers(w).values()):
+                            key = "k3_runs_same_dependent_disposed_by_2plus_threads"
+                            stats[key] = stats.get(key, 0) + 1
+                            if max(len(set(v)) for v in refcount_disposers(w).values()) >= 3:
+                                stats[key + "_3"] = stats.get(key + "_3", 0) + 1
                         if nontrivial_conc(c.trace):
                             stats["k3_nontrivial"].add((kind, mode, json.dumps([setup, progs]), tuple(sched)))
                         for tag, msg in oracle_conc(kind, setup, progs, log, w, w.env.flags):
                             chk.violation(f"{kind}|conc|{tag}|{json.dumps([setup, progs])}",
                                           {"mode": "concurrent", "granularity": mode, "kind": kind, "setup": setup,
                                            "programs": progs, "schedule": sched, "implementation_log": log,
-                                           "oracle": tag, "what": msg},
+                                           "oracle": tag, "what": msg, **conc_extra(kind, w)},
                                           size=100 + len(sched))
                         if not fine:
                             per_kind[kind].append((setup, progs, c.setup_steps, sched, log))
+                            if kind == "refcount":
+                                rel_cases.append((setup, progs, c.setup_steps, sched, D.release_profile(w)))
                     stats["k3_scenarios"] = stats.get("k3_scenarios", 0) + (1 if not fine else 0)
     stats["k3_impl_s"] = round(time.time() - t0, 2)
     from concurrent.futures import ThreadPoolExecutor
@@ -591,6 +653,17 @@ def run_k3(chk, kinds, tier, stats, bound=None):
                     detail["model_says"] = D.conc_model_show(chk.pid, kind, *firsts[0][:4])
                 chk.tie_broken(f"correspondence K3: transition system of {kind} vs implementation under the same schedule",
                                detail)
+    if rel_cases:
+        badidx, logs = D.release_correspondence(chk.pid, rel_cases)
+        chk.cov["traces_validated_against_impl"] += len(rel_cases)
+        chk.cov["disagreements_checked"] += len(rel_cases)
+        stats["k3_release_profiles_compared"] = len(rel_cases)
+        if badidx:
+            firsts = [rel_cases[i] for i in badidx if i >= 0][:3]
+            chk.tie_broken("correspondence K3: release() calls per dependent (Core/RefCountOnce.v rc_release_profile) vs "
+                           "implementation under the same schedule",
+                           {"n_disagreements": len(badidx), "logs": logs[:1],
+                            "first (setup, programs, setup steps, schedule, release() calls per dependent)": firsts})
     chk.add_samples([{"mode": "concurrent", "kind": k, "setup": c[0], "programs": c[1], "schedule": c[3],
                       "observed_log": c[4]} for k in kinds for c in per_kind[k][1:2]], limit=8)
     return bound
@@ -638,6 +711,11 @@ def run_check(chk, kinds, what, extra_assumptions=(), regressions=None):
         "k3_scheduled_steps_total": stats["k3_steps"], "k3_preemption_bound": bound,
         "k3_self_test": stats["k3_self_test"], "k3_impl_seconds": stats.get("k3_impl_s"),
     }
+    if "refcount" in kinds:
+        key = "k3_runs_same_dependent_disposed_by_2plus_threads"
+        chk.cov["input_distribution"][key] = stats.get(key, 0)
+        chk.cov["input_distribution"]["k3_runs_same_dependent_disposed_by_3_threads"] = stats.get(key + "_3", 0)
+        chk.cov["input_distribution"]["k3_release_profiles_compared"] = stats.get("k3_release_profiles_compared", 0)
     if "fixed_defect_witnesses" in stats:
         chk.cov["fixed_defect_witnesses"] = stats["fixed_defect_witnesses"]
     return chk.finish(
@@ -710,6 +788,8 @@ def replay(chk, path):
         bad = oracle_conc(kind, setup, progs, list(c.log), w, w.env.flags)
         print("setup", setup, "programs", progs, "schedule", d["schedule"])
         print("implementation log", c.log)
+        for k, v in conc_extra(kind, w).items():
+            print(k, v)
         print("oracle", bad or "ok")
         return 1 if bad else 0
     print(json.dumps(d, indent=1))
